@@ -97,13 +97,48 @@ P["C04"] = dict(cat="proof",
          "the bottom-up propagation rules rest on classical closure facts that are not formalised.",
     tech="Coq-verified certificate checkers + definition-level oracles on small nodes", ref="DESIGN.md C04")
 P["C10"] = dict(cat="proof",
-    text="The Coq judge verifies that M' is the stated transform of M (permutation, scaling, transposition, adding a reducible line, "
-         "submatrix, pivot by the pivot model) and then checks the verdict relation (equal / swapped / yes=>yes) across ten recognizers and "
-         "five decomposition strategies, on seeds up to 120 lines. Two different verdicts on related presentations contradict the "
-         "closure property whatever the true answer is.",
-    note=NOTE_COMMON + "the closure theorems themselves (TU, SP heredity, balanced permutation invariance are proved; graphic/network closure "
-         "and pivot invariance are classical facts not formalised here) - see DESIGN.md C10. 'Camion-signed' is compared only on TU instances.",
-    tech="Coq-checked transform relation + metamorphic comparison of verdicts", ref="DESIGN.md C10")
+    text="Coq (all shapes): the definition-level oracles are invariant under exactly the transforms the judge accepts - tu_bf (= the "
+         "determinant definition, via MathComp) under row/column permutation, transposition, +-1 scaling, submatrices, adding a zero / "
+         "unit / parallel line, block-diagonal composition; sp_greedy (= SP-reducibility) and balanced_bf likewise (scaling for ternary "
+         "matrices). judge_rel is proved to check that M' is the stated transform of M and to demand equal / swapped / yes=>yes verdicts. "
+         "Tie: ten recognizers x five decomposition strategies on transformed presentations of random, structured and large (up to ~40x40) matrices.",
+    note=NOTE_COMMON + "closure of graphicness / network / regularity under these transforms and invariance under pivots are classical "
+         "facts not formalised here (the judge demands them, the theorems cover TU, SP and balancedness); 'Camion-signed' is compared only "
+         "when a presentation is reported TU.",
+    tech="Coq closure theorems for the oracles + Coq-checked transform relation + metamorphic comparison of verdicts", ref="DESIGN.md C10")
+P["C11"] = dict(cat="proof",
+    text="Coq: model of the LIFO scratch-stack allocator of env.c (_CMRallocStack/_CMRfreeStack/CMRgetStackUsage): invariant, alloc;free "
+         "= identity on the state, every request below 1 TB is served, a well-bracketed call restores the state, any chunk left behind "
+         "strictly increases CMRgetStackUsage, usage 0 = initial state; judge_stack soundness. Tie: the allocator event trace of every "
+         "case (link-time wrappers, nothing in /repo) is replayed through the extracted model and the usage figure compared after each "
+         "event. Crash / assertion / out-of-bounds / uninitialised / leak part: all case streams of the functional properties replayed on "
+         "the -O1 ASan+UBSan assertion-enabled build (scratch chunks fenced by ASan poison, heap-byte accounting + LeakSanitizer per case) "
+         "and on the clang MemorySanitizer build.",
+    note=NOTE_COMMON + "PARTIAL: crashes, failed assertions, memory errors and heap leaks are runtime behaviour no Coq model of this C "
+         "code exhibits; for them the check is a sanitized exploration of the listed streams (sampled per stream), not a proof. The theorems "
+         "cover the stack discipline, which turns 'stack back at its pre-call level' into the observable usage comparison. CLI tools: "
+         "only through C20's readers/writers.",
+    tech="Coq proof about the allocator model + trace correspondence + sanitized replay of all streams", ref="DESIGN.md C11")
+P["C18"] = dict(cat="proof",
+    text="Coq: the injected clock schedule (read r returns r ticks, +2000 s from read k on) makes a check at read c of a function entered "
+         "at read s give up iff s < k <= c; hence enumerating k = 0..N reaches every timeout exit the unlimited run passes; decision rule "
+         "of judge_tlimit (stack balanced after the limited call and after the retry, no heap bytes lost, input untouched, timeout => no "
+         "output object, no timeout => record identical to the unlimited run, retry on the same environment identical). Tie: clock() "
+         "intercepted at link time; 9 time-limited entry-point families x cases of the functional generators x every k.",
+    note=NOTE_COMMON + "PARTIAL: the cleanup code on the timeout exits is exercised (ASan build, heap accounting, CMRgetStackUsage), not "
+         "modelled; equality with the unlimited answer is textual equality of harness records; the unlimited answers themselves are "
+         "judged against the definitions by C01..C17.",
+    tech="Coq theorems on the injection schedule / decision rule / allocator + deterministic timeout injection at every clock read",
+    ref="DESIGN.md C18")
+P["C19"] = dict(cat="proof",
+    text="Coq: the environment's only call-surviving state is the scratch-stack allocator; a well-bracketed call returns it to exactly the "
+         "state it found from every reachable state, so two histories of such calls leave identical states; decision rules of judge_hist / "
+         "judge_threads. Tie: histories of 2..8 calls (a quarter cut short by injected timeouts) on one environment, every call repeated, "
+         "compared byte-wise with fresh-environment references; fresh scratch chunks filled with 0xa5 / 0x00 / 0xff; input matrices "
+         "compared bitwise with snapshots; the same on the MemorySanitizer build; concurrent workloads under ThreadSanitizer.",
+    note=NOTE_COMMON + "PARTIAL: absence of reads of stale scratch bytes and of data races is observed on the explored histories and "
+         "schedules (three fill patterns, MSan, TSan), not proved.",
+    tech="Coq theorems on allocator state restoration + differential histories, scratch poisoning, MSan, TSan", ref="DESIGN.md C19")
 P["C12"] = dict(cat="proof",
     text="Coq: the composition model is the documented block formula for 2-/Delta-/Y-/3-sums (all sizes, special lines anywhere), shapes of "
          "accepted calls, judge soundness for compose (formula result or refusal) and for the decompose-then-compose round trip (components of "
